@@ -415,7 +415,59 @@ def case_actions(spec, cov, out):
                 return
 
 
-RUN = {"tree": case_tree, "actions": case_actions}
+def case_remote(spec, cov, out):
+    """terminal / session requests with an established remote session while the far end (or the path to it) is in each of
+    the failure states: every answer must still be one of the four documented statuses, refused ones must change nothing"""
+    rnd = random.Random(spec["seed"])
+    fam = spec["family"]
+    net = corpus.two_hosts() if fam == "lan" else corpus.routed_two_subnets()
+    game = corpus.build_game(net.scenario())
+    sim = game.simulation
+    a, b = "pc_a", "srv_b"
+    mid = "sw1" if fam == "lan" else "r1"
+    nb = sim.network.get_node_by_hostname(b)
+    b_ip = str(nb.network_interface[1].ip_address)
+    mon = ReqMonitor(game, cov, out, {"case": spec["name"], "family": fam, "far_end_state": spec["far"]})
+    sim.pre_timestep(0)
+    base = ["network", "node", a, "service", "terminal"]
+    st, _ = mon.submit(base + ["node_session_remote_login", "admin", "admin", b_ip], "remote:login")
+    cov.hit("remote_login_status", str(st))
+    if spec.get("warm", True):
+        mon.submit(base + ["send_remote_command", b_ip, {"command": ["file_system", "create", "folder", "before"]}], "remote:cmd-live")
+    else:  # cold: the near terminal's last exchange was as a *server* (the far end logged in to it), no command answered yet
+        a_ip = str(sim.network.get_node_by_hostname(a).network_interface[1].ip_address)
+        mon.submit(["network", "node", b, "service", "terminal", "node_session_remote_login", "admin", "admin", a_ip], "remote:reverse-login")
+    far = spec["far"]
+    nz = lambda h: setattr(sim.network.get_node_by_hostname(h).config, "shut_down_duration", 0)  # noqa: E731
+    if far == "node-off":
+        nz(b)
+        sim.apply_request(["network", "node", b, "shutdown"])
+    elif far == "nic-off":
+        sim.apply_request(["network", "node", b, "network_interface", 1, "disable"])
+    elif far == "terminal-stopped":
+        sim.apply_request(["network", "node", b, "service", "terminal", "stop"])
+    elif far == "path-down" and mid:
+        nz(mid)
+        sim.apply_request(["network", "node", mid, "shutdown"])
+    elif far == "near-nic-off":
+        sim.apply_request(["network", "node", a, "network_interface", 1, "disable"])
+    elif far == "timed-out":
+        for t in range(1, 14):
+            sim.apply_timestep(t)
+            sim.pre_timestep(t + 1)
+    cov.hit("far_end_states", far)
+    for t in range(3):
+        mon.submit(base + ["send_remote_command", b_ip, {"command": ["file_system", "create", "folder", f"after{t}"]}], f"remote:cmd@{far}")
+        mon.submit(base + ["send_remote_command", NOWHERE, {"command": ["os", "scan"]}], f"remote:cmd-nowhere@{far}")
+        mon.submit(base + ["node_session_remote_login", "admin", "admin", b_ip], f"remote:login@{far}")
+        mon.submit(base + ["send_local_command", "admin", "admin", {"command": ["file_system", "create", "folder", f"local{t}"]}], f"remote:local-cmd@{far}")
+        cov.inc("remote_requests_in_failure_states", 4)
+        sim.apply_timestep(20 + t)
+        sim.pre_timestep(21 + t)
+    mon.submit(base + ["remote_logoff", b_ip], f"remote:logoff@{far}")
+
+
+RUN = {"tree": case_tree, "actions": case_actions, "remote": case_remote}
 
 
 class Check:
@@ -434,7 +486,7 @@ class Check:
         "state = describe_state() + ARP/MAC tables, sessions, connections, countdowns, users, file objects (pv.snap.full); sys_log output is not state",
         "action types are crossed only with components of the kind they are documented for; execute only with applications that define it",
     ]
-    min_monitor = {"requests": 5000, "refused_state_compares": 1500, "action_requests": 1000}
+    min_monitor = {"requests": 5000, "refused_state_compares": 1500, "action_requests": 1000, "remote_requests_in_failure_states": 200}
     case_timeout = {"quick": 1500, "thorough": 7200}
 
     def cases(self, tier, seed):
@@ -451,6 +503,10 @@ class Check:
             sd = seed * 1000 + 500 + s
             specs.append({"name": f"actions-{sd}", "kind": "actions", "seed": sd, "family": fams[s % 3], "sclasses": SCLASSES,
                           "budget": 120 if q else 600})
+        for fam in ("lan", "routed"):
+            for far in ("live", "node-off", "nic-off", "terminal-stopped", "path-down", "near-nic-off", "timed-out"):
+                for warm in (True, False):
+                    specs.append({"name": f"remote-{fam}-{far}-{'warm' if warm else 'cold'}", "kind": "remote", "seed": seed, "family": fam, "far": far, "warm": warm})
         return specs
 
     def run_case(self, spec):
